@@ -16,7 +16,9 @@ model needs no schema.
 
 The flag `legacy` selects the code *before* the repair `fixes/C15_reject_stray_closers.diff`
 (`legacy = true`: the tokenizer still emits the `[[` / `]]` tokens and the term branch wraps any token);
-`parse`/`eval` without the flag are the repaired code.  No Mathlib imports: linked into the native driver.
+`parse`/`eval` without the flag are the repaired code.  Likewise `se = true` selects `has_same_tags` before
+the repair `fixes/C15_same_tags_group_identity.diff` (result groups compared by equality instead of
+identity).  No Mathlib imports: linked into the native driver.
 -/
 import HedVerif.Model.Tok
 
@@ -463,10 +465,12 @@ def sortByStr : List Node → List Node
 
 def hasId (l : List Node) (i : Nat) : Bool := l.any (fun n => n.id == i)
 
-/-- `SearchResult.has_same_tags` (`self.group != other.group` is *equality*, the tags are compared by
-identity) -/
-def sameTags (a b : Result) : Bool :=
-  Node.eqv a.group b.group && a.tags.length == b.tags.length
+/-- `SearchResult.has_same_tags`: same group, same tags by identity.  With `se` (the code before the repair
+`fixes/C15_same_tags_group_identity.diff`) the groups are compared with `!=`, i.e. by *equality*
+(`HedGroup.__eq__`); the repaired code (`se = false`) compares them by identity like the tags. -/
+def sameTags (se : Bool) (a b : Result) : Bool :=
+  (if se then Node.eqv a.group b.group else a.group.id == b.group.id)
+    && a.tags.length == b.tags.length
     && (a.tags.map Node.id == b.tags.map Node.id)
 
 /-- `SearchResult.merge_and_result` -/
@@ -474,21 +478,21 @@ def mergeRes (a b : Result) : Result :=
   ⟨a.group, a.anc, sortByStr (a.tags ++ b.tags.filter (fun t => !hasId a.tags t.id))⟩
 
 /-- body of the inner loop of `merge_and_groups` -/
-def mergeStep (a : Result) (acc : List Result) (b : Result) : List Result :=
+def mergeStep (se : Bool) (a : Result) (acc : List Result) (b : Result) : List Result :=
   if a.group.id == b.group.id then
     if a.tags.any (fun t => hasId b.tags t.id) then acc
     else
       let m := mergeRes a b
-      if acc.any (fun f => sameTags m f) then acc else acc ++ [m]
+      if acc.any (fun f => sameTags se m f) then acc else acc ++ [m]
   else acc
 
 /-- `ExpressionAnd.merge_and_groups` -/
-def mergeAnd (g1 g2 : List Result) : List Result :=
-  g1.foldl (fun acc a => g2.foldl (mergeStep a) acc) []
+def mergeAnd (se : Bool) (g1 g2 : List Result) : List Result :=
+  g1.foldl (fun acc a => g2.foldl (mergeStep se a) acc) []
 
 /-- `ExpressionOr.handle_expr` after both sides are evaluated -/
-def mergeOr (g1 g2 : List Result) : List Result :=
-  g1.filter (fun a => !g2.any (fun b => sameTags a b)) ++ g2
+def mergeOr (se : Bool) (g1 g2 : List Result) : List Result :=
+  g1.filter (fun a => !g2.any (fun b => sameTags se a b)) ++ g2
 
 /-- The `while group:` loop of `Expression.handle_expr`: the containing group and every ancestor,
 each with the node below it as its tag. -/
@@ -544,31 +548,77 @@ def filterExact (rs : List Result) : List Result :=
   rs.filter (fun r => r.group.kids.length == r.tags.length)
 
 /-- `expr.handle_expr(hed_string, exact)` -/
-def evalE (t : Tree) : Expr → Bool → List Result
+def evalE (se : Bool) (t : Tree) : Expr → Bool → List Result
   | .term text mode nil, exact => termResults t text mode nil exact
   | .wild w, _ => wildResults t w
   | .and l r, exact =>
-    let g1 := evalE t l exact
-    if g1.isEmpty then [] else mergeAnd g1 (evalE t r exact)
-  | .or l r, exact => mergeOr (evalE t l exact) (evalE t r exact)
-  | .neg r, exact => negResults t (evalE t r exact)
-  | .desc r, _ => parents (evalE t r false)
-  | .exactAny r, _ => parents (evalE t r true)
+    let g1 := evalE se t l exact
+    if g1.isEmpty then [] else mergeAnd se g1 (evalE se t r exact)
+  | .or l r, exact => mergeOr se (evalE se t l exact) (evalE se t r exact)
+  | .neg r, exact => negResults t (evalE se t r exact)
+  | .desc r, _ => parents (evalE se t r false)
+  | .exactAny r, _ => parents (evalE se t r true)
   | .exactNone r, _ =>
-    let filt := filterExact (evalE t r true)
+    let filt := filterExact (evalE se t r true)
     if !filt.isEmpty then parents filt else []
   | .exactOpt r l, _ =>
-    let found := evalE t r true
+    let found := evalE se t r true
     let filt := filterExact found
     if !filt.isEmpty then parents filt
     else
-      let filt2 := filterExact (mergeAnd found (evalE t l true))
+      let filt2 := filterExact (mergeAnd se found (evalE se t l true))
       if !filt2.isEmpty then parents filt2 else []
 
-/-- `QueryHandler.search(hed_string)` -/
-def eval (q : Expr) (t : Tree) : List Result := evalE t q false
+/-- `QueryHandler.search(hed_string)`; `se` = the code before the repair of `has_same_tags` -/
+def evalWith (se : Bool) (q : Expr) (t : Tree) : List Result := evalE se t q false
 
 /-- `bool(QueryHandler.search(hed_string))` -/
-def isMatch (q : Expr) (t : Tree) : Bool := !(eval q t).isEmpty
+def isMatchWith (se : Bool) (q : Expr) (t : Tree) : Bool := !(evalWith se q t).isEmpty
+
+/-- the repaired code -/
+def eval (q : Expr) (t : Tree) : List Result := evalWith false q t
+
+def isMatch (q : Expr) (t : Tree) : Bool := isMatchWith false q t
+
+/-! ## Batch interface (hed/models/query_service.py) -/
+
+/-- `HedString.__bool__` of a search object -/
+def Tree.truthy (t : Tree) : Bool := !t.kids.isEmpty
+
+/-- `get_query_handlers(queries, query_names)`: `none` for an empty query list (the function returns
+`None, None, [issue]`), else the handlers (`none` where `QueryHandler(query)` raised), the names and the
+number of issues.  `names = none` is `query_names=None`/empty. -/
+def getHandlers (queries : List Str) (names : Option (List Str)) :
+    Option (List (Option Expr) × List Str × Nat) :=
+  if queries.isEmpty then none
+  else
+    let nm : List Str := match names with
+      | some ns => if ns.isEmpty then (List.range queries.length).map (fun i => "query_".toList ++ (toString i).toList) else ns
+      | none => (List.range queries.length).map (fun i => "query_".toList ++ (toString i).toList)
+    let nameIssue : Nat :=
+      if queries.length != nm.length then 1
+      else if nm.eraseDups.length != nm.length then 1 else 0
+    let hs := queries.map (fun q => match parse q with | .ok e => some e | .error _ => none)
+    some (hs, nm, nameIssue + (hs.filter (fun h => h.isNone)).length)
+
+/-- one cell of the factor table of `search_hed_objs`: starts at 0, set to 1 when the object is truthy and
+the query matches it -/
+def cellOf (se : Bool) (q : Expr) (o : Tree) : Nat :=
+  if o.truthy then (if isMatchWith se q o then 1 else 0) else 0
+
+/-- the cells that the double loop `for parser in queries: for obj in hed_objs: if obj: if parser.search(obj):
+df.at[index, name] = 1` of `search_hed_objs` sets, as (row, column), in loop order -/
+def setOps (se : Bool) (objs : List Tree) (queries : List Expr) : List (Nat × Nat) :=
+  (List.range queries.length).flatMap (fun j =>
+    (List.range objs.length).filterMap (fun i =>
+      match objs[i]?, queries[j]? with
+      | some o, some q => if o.truthy && isMatchWith se q o then some (i, j) else none
+      | _, _ => none))
+
+/-- `search_hed_objs(hed_objs, queries, query_names)` (distinct names): the `DataFrame` of zeros with the
+cells of `setOps` set to 1, as rows (one per object) of cells (one per query). -/
+def searchObjs (se : Bool) (objs : List Tree) (queries : List Expr) : List (List Nat) :=
+  (List.range objs.length).map (fun i =>
+    (List.range queries.length).map (fun j => if (setOps se objs queries).contains (i, j) then 1 else 0))
 
 end HedVerif.Query
